@@ -1057,6 +1057,15 @@ package yang
 //@   modifies l.start
 //@   safe
 //
+// A string written as "a" + "b" + ... is handed on as ONE token, and that token
+// is the token of its first piece: its file, line and column are where the
+// string starts. (The token queue itself is outside the subset: this is the
+// only clause of parser.next that is claimed.)
+//@ func (*parser).next props C16 C02
+//@   only loop1/inv
+//@   loop 1
+//@     invariant[a-concatenated-string-is-the-token-of-its-first-piece] t == loopentry(t)
+//
 // peek and acceptRun leave the cursor inside the input; peek leaves the
 // position where it was.
 //@ func (*lexer).peek props C16 C01
